@@ -79,6 +79,11 @@ def base_traces(versions, for_c19=False):
                                                        ("OU[", 120, b"", None), ("VYc", 104, b"", u32(2) + b"\xff" * 24 + b"\0"),
                                                        ("VTc", 105, u32(5, 2), None), ("VSh", 106, b"", None), ("OU]", 130, b"", None),
                                                        ("OHe", 140, b"", None), ("OF[", 143, b"", None), ("OF]", 146, b"", None)]},
+            # second stream: its region holds the oldest events of the stream (it sorts to the very beginning)
+            "loom.n0/proc.100/thread.102": {"meta": meta(102, 100, "n0", req=("nosv",)),
+                                            "events": [("OU[", 100, b"", None), ("OHx", 50, i32(-1, 102) + i64(0), None), ("VSh", 60, b"", None),
+                                                       ("VSf", 70, b"", None), ("OU]", 110, b"", None), ("OHe", 141, b"", None),
+                                                       ("OF[", 144, b"", None), ("OF]", 147, b"", None)]},
         }
     return out
 
